@@ -571,6 +571,34 @@ func gen() ([]byte, error) {
 			}
 		}
 	}
+	// the endpoint id handed to the reverse proxy is per join: Register stores name#joinseq, chooseEndpoint returns it
+	endpointFacts := []string{"EndpointNotPerJoin", "ChooseReturnsMemberName"}
+	{
+		f, err := parser.ParseFile(fset, filepath.Join(tx.Repo, "server", "group", "http.go"), nil, 0)
+		if err != nil {
+			return nil, err
+		}
+		for _, d := range f.Decls {
+			fd, ok := d.(*ast.FuncDecl)
+			if !ok || fd.Body == nil {
+				continue
+			}
+			ast.Inspect(fd.Body, func(n ast.Node) bool {
+				a, ok := n.(*ast.AssignStmt)
+				if !ok || len(a.Lhs) != 1 || len(a.Rhs) != 1 {
+					return true
+				}
+				if ix, ok := a.Lhs[0].(*ast.IndexExpr); ok && fd.Name.Name == "Register" && selName(ix.X) == "endpoints" &&
+					strings.Contains(show(a.Rhs[0]), "AddUint64(&httpGroupJoinSeq") && strings.HasPrefix(show(a.Rhs[0]), show(ix.Index)+" + ") {
+					endpointFacts[0] = "EndpointPerJoin"
+				}
+				if ix, ok := a.Rhs[0].(*ast.IndexExpr); ok && fd.Name.Name == "chooseEndpoint" && isIdent(a.Lhs[0], "name") && selName(ix.X) == "endpoints" {
+					endpointFacts[1] = "ChooseReturnsJoinEndpoint"
+				}
+				return true
+			})
+		}
+	}
 	var runBlocks [][]string
 	{
 		f, err := parser.ParseFile(fset, filepath.Join(tx.Repo, "server", "proxy", "http.go"), nil, 0)
@@ -728,6 +756,6 @@ func gen() ([]byte, error) {
 		}
 		b.WriteString(tx.CoqString(t))
 	}
-	b.WriteString("].\n")
+	b.WriteString("].\n\nDefinition http_group_endpoint_facts : list string := [" + tx.CoqString(endpointFacts[0]) + "; " + tx.CoqString(endpointFacts[1]) + "].\n")
 	return b.Bytes(), nil
 }
